@@ -34,6 +34,8 @@ type Module struct {
 	SSAPkgs  map[string]*ssa.Package
 	Fset     *token.FileSet
 	AllFuncs []*ssa.Function // functions (incl. anonymous) whose package is module-local, sorted by name
+	Folded   []Folded               // helpers introduced after the pinned commit and what folding did with them
+	Absorbed map[*ssa.Function]bool // helpers whose every use was folded into the callers
 }
 
 // goEnv pins the toolchain for `go list` (run by go/packages): the pre-installed go1.26.8, offline.
@@ -134,7 +136,18 @@ func loadModule(repo, name string, overlay map[string][]byte) (*Module, error) {
 			}
 		}
 	})
+	if err := m.foldNewHelpers(); err != nil {
+		return nil, err
+	}
+	if os.Getenv("KAFCHECK_FOLDLOG") != "" {
+		for _, f := range m.Folded {
+			fmt.Fprintf(os.Stderr, "fold %s: %s sites=%d %s\n", name, f.Helper, f.Sites, f.Kept)
+		}
+	}
 	for fn := range ssautil.AllFunctions(prog) {
+		if m.Absorbed[fn] {
+			continue
+		}
 		if fn.Pkg == nil && fn.Parent() == nil {
 			// instantiations / wrappers: keep if origin is local
 			if o := fn.Origin(); o == nil || o.Pkg == nil || !m.isLocalPkg(o.Pkg.Pkg) {
@@ -243,8 +256,29 @@ func (m *Module) Func(pkgPath, name string) *ssa.Function {
 // AnonFuncs returns fn and all functions nested in it.
 func withAnon(fn *ssa.Function) []*ssa.Function {
 	out := []*ssa.Function{fn}
-	for _, a := range fn.AnonFuncs {
+	for _, a := range anonFuncsOf(fn) {
 		out = append(out, withAnon(a)...)
+	}
+	return out
+}
+
+// anonFuncsOf: the closures created in fn's body — fn.AnonFuncs plus, after helper folding, the
+// closures of the helpers that were folded into it.
+func anonFuncsOf(fn *ssa.Function) []*ssa.Function {
+	out := append([]*ssa.Function(nil), fn.AnonFuncs...)
+	have := map[*ssa.Function]bool{}
+	for _, a := range out {
+		have[a] = true
+	}
+	for _, b := range fn.Blocks {
+		for _, in := range b.Instrs {
+			if mc, ok := in.(*ssa.MakeClosure); ok {
+				if f, ok := mc.Fn.(*ssa.Function); ok && !have[f] && f.Parent() != nil && f.Parent() != fn && f.Synthetic == "" {
+					have[f] = true
+					out = append(out, f)
+				}
+			}
+		}
 	}
 	return out
 }
